@@ -63,7 +63,16 @@ class Ctx:
         sh("python3 %s" % os.path.join(ROOT, "tools", "gen_shared.py"))
         if not os.path.exists(os.path.join(COQ, "Makefile")):
             sh("coq_makefile -f _CoqProject -o Makefile", cwd=COQ)
-        rc, out = sh("timeout 3000 make -j16", cwd=COQ)
+        # a regenerated Gen/*.v invalidates the compiled files of Gen/ (so that a file which no longer
+        # compiles cannot be satisfied by its stale .vo); -k: one property's broken obligation must not
+        # stop the files of the other properties from being built
+        gen = os.path.join(COQ, "Gen")
+        stale = [f for f in glob.glob(os.path.join(gen, "*.v"))
+                 if not os.path.exists(f + "o") or os.path.getmtime(f) > os.path.getmtime(f + "o")]
+        if stale:
+            for f in glob.glob(os.path.join(gen, "*.vo")) + glob.glob(os.path.join(gen, "*.vos")) + glob.glob(os.path.join(gen, "*.vok")):
+                os.remove(f)
+        rc, out = sh("timeout 3000 make -k -j16", cwd=COQ)
         open(os.path.join(self.work, "coq_build.log"), "w").write(out)
         return rc == 0, out
 
@@ -90,15 +99,15 @@ class Ctx:
             names = thm_re.findall(re.sub(r"\(\*.*?\*\)", "", src, flags=re.S))
             res["theorems"] += [n for _, n in names]
         if not ok:
+            # some file of the development does not compile.  It concerns THIS property only if one of its own
+            # files (or something they import) is affected: that shows when they are re-checked below.
             m = re.search(r"File \"([^\"]+)\", line (\d+).*?\nError:(.*?)(?:\n\n|\Z)", out, re.S)
-            res["failed"] = (m.group(0)[:2000] if m else out[-2000:])
-            self.proof = res
-            return res
+            res["other_failures"] = (m.group(0)[:1200] if m else out[-1200:])
         for f in files:
             rc, o = sh("timeout 1200 coqc -Q . Tinode %s" % f, cwd=COQ)
             open(os.path.join(self.work, os.path.basename(f) + ".log"), "w").write(o)
             if rc != 0:
-                res["failed"] = o[-2000:]
+                res["failed"] = o[-2000:] + ("\n(full build: " + res["other_failures"] + ")" if res.get("other_failures") else "")
                 break
             # Print Assumptions output blocks appear in theorem order
             blocks = re.split(r"(?=Closed under the global context|Axioms:)", o)
@@ -111,6 +120,8 @@ class Ctx:
                 else:
                     res["axioms"][name] = b.strip().split("\n")[1:]
             res["printed"] = res.get("printed", []) + printed
+        if not ok and not res["failed"]:
+            res["build_ok"] = True      # the failure is in files this property does not depend on
         if self.tier == "thorough" and not res["failed"]:
             res["coqchk"] = self.coqchk(files)
             if not res["coqchk"]["ok"]:
